@@ -67,7 +67,7 @@ def demo_run(feats):
     rc, out = sh(f"cargo test --offline -p rcgen {feats} --test demo_mutant 2>&1", cwd=WT, env=ENV)
     failed = sorted(set(re.findall(r"^test (\S+) \.\.\. FAILED", out, re.M)))
     passed = len(re.findall(r"^test \S+ \.\.\. ok", out, re.M))
-    compiled = "error: could not compile" not in out and "error[E" not in out
+    compiled = "Running tests/demo_mutant.rs" in out   # the demonstration was built and ran
     return dict(rc=rc, compiled=compiled, passed=passed, failed=failed, tail=out[-3000:])
 
 
@@ -75,7 +75,9 @@ def confirm(src, sid):
     prop = sid.split("-")[0]
     ensure_wt()
     demo = open(os.path.join(src, "demo.rs")).read()
-    if "aws_lc_rs" in demo or "aws-lc-rs" in demo:
+    if os.environ.get("SEED_FEATS") is not None:
+        feats = os.environ["SEED_FEATS"]
+    elif "aws_lc_rs" in demo or "aws-lc-rs" in demo:
         feats = "--no-default-features --features aws_lc_rs,pem,x509-parser"
     elif "x509_parser" in demo or "x509-parser" in demo or "from_ca_cert" in demo or "CertificateSigningRequestParams" in demo:
         feats = "--features x509-parser"
